@@ -38,6 +38,18 @@ DESC = {
     "c14d-1-hashseed-timeconv": ("data_cols turned into a set in create_time_conversion_functions: overwrite order = string-hash order", "same quantity supplied in two time units + a third unit requested; different PYTHONHASHSEED"),
     "c14d-2-short-read-cached": ("lru_cache'd parameter-file reader", "first read of a file in the process returns a truncated but valid YAML text; later fault-free set-up"),
     "c14d-3-listing-partial": ("'discover internal modules once' list filled behind an `if not list` guard", "the first directory walk of the process raises EIO once; later set-ups"),
+    "c01d-1-sum-by-pid-inverse": ("sum_by_p_id via argsort/searchsorted/bincount maps the per-rank sums back with the forward instead of the inverse permutation", "row order whose p_id-sorting permutation is not its own inverse (rotation, most shuffles; not a swap or reversal)"),
+    "c01d-2-grouped-max-datetime": ("grouped_max (datetime branch) uses numpy.maximum.at on an array seeded with column[0]", "user aggregation spec 'max' over a datetime column and a first row later than another group's maximum"),
+    "c01d-3-eg-id-array": ("eg_id_numpy: dict replaced by an array of length max(p_id)+1, the partner >= 0 guard dropped (-1 reads the last element)", "person with the largest p_id opens an Einstandsgemeinschaft and sits before a person without partner"),
+    "c14e-1-load-functions-alias": ("_load_functions keeps the first source dict and .update()s it: the caller's functions dict is aliased and mutated", "reform call functions=[policy_functions, rule], then a baseline call with policy_functions"),
+    "c14e-2-ast-lru": ("lru_cache on the 'source -> ast' helper while the transformer rewrites trees in place", "the same function rewritten for two different backends (numpy, then jax) in one process"),
+    "c14e-3-seterr-leak": ("numpy.seterr(...) ... restore with the raise in between: numpy's error state is not restored on that failure path", "a call rejected for an int beyond 2**53 in a float column, then a call by a user running numpy in strict mode"),
+    "c20c-1-hh-nan-nunique": ("household constancy test via groupby().nunique() > 1 (ignores NaN)", "one member's *_hh value missing (NaN) while the others carry a number"),
+    "c20c-2-fk-negative": ("pointer check filters rows with fk >= 0 instead of whitelisting -1", "dangling pointer that is negative but not -1"),
+    "c20c-3-warn-once": ("conversion warning only for conversions not yet announced in this process", "a second call in the same process converting a column of the same name and dtype"),
+    "c20d-1-mod1-check": ("float->int check replaced by (x % 1 == 0).all()", "integral float with |x| >= 2**63"),
+    "c20d-2-warning-first-pass": ("conversion split into two passes; the warning is guarded by the first pass only", "the only converted columns are ones that override a policy function"),
+    "c20d-3-warn-memo": ("'reduce noise' memo: the warning is emitted once per identical set of conversions per process", "a later call with the same converted columns and dtypes"),
     "c20a-1-allclose": ("float->int exactness test replaced by allclose(out, out.round())", "float for an int input within 1e-8+1e-5*|x| of an integer"),
     "c20a-2-sn-check-moved2": ("sn_id_numpy: spouse look-up and consistency check only inside `if gemeinsam_veranlagt`", "contradictory spouses where the one with True comes earlier in the table"),
     "c20a-3-checked-cache": ("'already checked' WeakValueDictionary keyed by (id(df), shape, columns) skips the input checks", "valid DataFrame simulated, the same object corrupted in place, passed again"),
